@@ -421,6 +421,19 @@ func r1Pair(c *mon.Case) {
 	if !r1In(AP, pa) {
 		c.Violation("r1/AddPoint/loses-new-point/wrong-answer", "AddPoint does not contain the added point", desc())
 	}
+	// the empty case: no point is within any margin of the empty set (documented: "any expansion of an empty
+	// interval remains empty"), also for the non-canonical empty intervals that Intersection produces
+	for _, x := range []r1.Interval{A, I, r1.EmptyInterval()} {
+		if x.IsEmpty() {
+			c.Count("r1.empty_expanded", 1)
+			for _, mg := range []float64{margin, 0.5, 1, 3, gen.LogUniform(r, 1e-3, 10)} {
+				if e := x.Expanded(mg); !e.IsEmpty() {
+					c.Violation("r1/Expanded/empty-becomes-non-empty/wrong-answer", fmt.Sprintf("Expanded(%s) of the empty interval %s is %s", hx(mg), r1Str(x), r1Str(e)), desc())
+					break
+				}
+			}
+		}
+	}
 	if A.InteriorContainsInterval(B) && !A.ContainsInterval(B) {
 		c.Violation("r1/InteriorContains-implies-Contains/wrong-answer", "InteriorContainsInterval but not ContainsInterval", desc())
 	}
@@ -824,6 +837,22 @@ func capPair(c *mon.Case) {
 	}
 	if A.Intersects(B) != B.Intersects(A) {
 		c.Violation("cap/Intersects/asymmetric/wrong-answer", "Intersects is not symmetric", desc())
+	}
+	// the empty cases: the empty cap has no point, so every cap contains it and none intersects it; expansion keeps it empty
+	for _, e := range []s2.Cap{s2.EmptyCap(), s2.CapFromCenterHeight(B.Center(), -1)} {
+		c.Count("cap.empty_cases", 1)
+		if !A.Contains(e) {
+			c.Violation("cap/Contains/empty-cap-not-contained/wrong-answer", "A.Contains(empty cap) is false ("+capStr(e)+")", desc())
+		}
+		if A.Intersects(e) || e.Intersects(A) || A.InteriorIntersects(e) {
+			c.Violation("cap/Intersects/empty-cap-intersects/wrong-answer", "a cap intersects the empty cap ("+capStr(e)+")", desc())
+		}
+		if x := e.Expanded(s1.Angle(dist)); !x.IsEmpty() {
+			c.Violation("cap/Expanded/empty-becomes-non-empty/wrong-answer", "Expanded of the empty cap is "+capStr(x), desc())
+		}
+		if !e.IsEmpty() || !e.IsValid() {
+			c.Violation("cap/constructor/negative-height-not-empty/wrong-answer", "a cap of negative height is not a valid empty cap", desc())
+		}
 	}
 	if E.IsValid() && A.IsFull() && !E.IsFull() {
 		c.Violation("cap/Expanded/full-not-full/wrong-answer", "expanding the full cap is not full", desc())
